@@ -216,7 +216,11 @@ def run(tier="quick", seed=0, replay_path=None):
         if ln["uncut"]["ok"]:
             chk.note_nontrivial(common.case_hash([c["q"], ln["cutdepth"], ln["cutkind"]]))
         if ln["tid"] in rejects:
-            chk.fail(rejects[ln["tid"]], {"q": c["q"], "sc": c["sc"], "dseed": c["dseed"], "np1": c["np1"], "np2": c["np2"], "ops": rel.ops_of(c["q"]),
+            flags = {}
+            if "cum" in rel.ops_of(c["q"]) and not c.get("parquet"):
+                tabs = rel.make_tables(c["dseed"])
+                flags["cum_input_allnull_partition"] = rel.cum_input_allnull_partition(c["q"], rel.dask_sources(tabs, {"T1": ("from_pandas", c["np1"]), "T2": ("from_pandas", c["np2"])}))
+            chk.fail(rejects[ln["tid"]], {**flags, "q": c["q"], "sc": c["sc"], "dseed": c["dseed"], "np1": c["np1"], "np2": c["np2"], "ops": rel.ops_of(c["q"]),
                                           "cutdepth": ln["cutdepth"], "cutkind": ln["cutkind"], "errmsg": ln["msg"], "parquet": bool(c.get("parquet")),
                                           "cut_ops": rel.ops_of(nodes_of(c["q"])[ln["cutdepth"]]) if ln["cutdepth"] < len(nodes_of(c["q"])) else []},
                      {"msg": ln["msg"], "schema_cut": ln["schema_cut"], "schema_uncut": ln["schema_uncut"], "div_cut": ln["div_cut"], "div_uncut": ln["div_uncut"]})
